@@ -259,8 +259,8 @@ fn to_rhs(s: &PathSegment, self_ty: &Type) -> Type {
 fn ref_type(ty: &Type) -> Type {
     match ty {
         // `&dyn A + B` is not a type, `&(dyn A + B)` is.
-        Type::TraitObject(t) if t.bounds.len() > 1 => parse_quote!(&(#ty)),
-        Type::ImplTrait(t) if t.bounds.len() > 1 => parse_quote!(&(#ty)),
+        Type::TraitObject(t) if (t.bounds.len() > 1 || t.bounds.trailing_punct()) => parse_quote!(&(#ty)),
+        Type::ImplTrait(t) if (t.bounds.len() > 1 || t.bounds.trailing_punct()) => parse_quote!(&(#ty)),
         _ => parse_quote!(&#ty),
     }
 }
